@@ -718,6 +718,74 @@ fn typed_size() -> u64 {
     (1 + n + n * n + n * n * n) * TYPED_MACROS.len() as u64 * 2
 }
 
+// ---------------------------------------------------------------------------
+// a stored program named like the loop variable must be shadowed too
+
+fn run_shadow(idx: u64, acc: &mut Acc) {
+    // idx -> (list over {0,1,2} of length <= 3, macro form)
+    let forms = macro_forms();
+    let nf = forms.len() as u64;
+    let mut li = idx / nf;
+    let m = forms[(idx % nf) as usize];
+    let mut l: Vec<i64> = Vec::new();
+    let mut len = 0;
+    let mut block = 1u64;
+    while li >= block {
+        li -= block;
+        block *= 3;
+        len += 1;
+    }
+    for _ in 0..len {
+        l.push((li % 3) as i64);
+        li /= 3;
+    }
+    let mut exp_log = Vec::new();
+    let exp = m.eval(&l, &mut exp_log);
+    let lv = V::List(l.iter().map(|x| V::Int(*x)).collect());
+    let src = m.src("l");
+    let mut b = BindContext::new();
+    b.bind_func("p", &p_impl);
+    b.bind_func("q", &q_impl);
+    b.bind_func("r", &r_impl);
+    b.bind_param("y", CelValue::Int(1));
+    b.bind_param("l", lv.to_cel());
+    let mut ctx = CelContext::new();
+    // programs stored under the names of the loop variables of the macro forms
+    let ok = ctx.add_program_str("k", "x > 0").is_ok()
+        && ctx.add_program_str("x", "100").is_ok()
+        && ctx.add_program_str("acc", "1000").is_ok()
+        && ctx.add_program_str("main", &src).is_ok();
+    if !ok {
+        return;
+    }
+    take_log();
+    let got = real::exec_in(&mut ctx, "main", &b);
+    let got_log = take_log();
+    acc.eval();
+    acc.class(&got.class());
+    acc.nontrivial(&("shadow", idx));
+    let good = match (&exp, &got) {
+        (Err(()), Outcome::Fail(..)) => true,
+        (Ok(v), o) => matches!(o.value(), Some(g) if g.same(v)),
+        _ => false,
+    };
+    if !good || exp_log != got_log {
+        acc.violation(
+            &format!("{} loop-variable-does-not-shadow-a-stored-program-of-its-name", m.name()),
+            json!({"src": src, "list": format!("{:?}", l), "stored_programs": "x := 100, acc := 1000, k := x > 0"}),
+            format!("{:?} calls {:?}", exp.as_ref().map(|v| v.show()), exp_log),
+            format!("{} calls {:?}", got.show(), got_log),
+        );
+    }
+    if acc.wants_sample() {
+        acc.sample(json!({"src": src, "stored_programs": "x := 100, acc := 1000", "observed": got.show()}));
+    }
+}
+
+fn shadow_size() -> u64 {
+    (1 + 3 + 9 + 27) * macro_forms().len() as u64
+}
+
 fn _unused(_: BTreeMap<String, V>) {}
 
 pub fn replay_families(t: Tier) -> Vec<Family<'static>> {
@@ -726,6 +794,7 @@ pub fn replay_families(t: Tier) -> Vec<Family<'static>> {
         Family::new("list-macros", sp.size(), move |i, a| sp.run(i, a)),
         Family::new("map-key-order", 15 * MAPMACROS.len() as u64, run_mapcase),
         Family::new("typed-elements", typed_size(), run_typed),
+        Family::new("shadowed-programs", shadow_size(), run_shadow),
     ]
 }
 
@@ -733,7 +802,7 @@ pub fn run(t: Tier) -> i32 {
     let mut rep = Report::new(ID, t, "exploration");
     let sp = Space::new(t);
     rep.rule = format!(
-        "list-macros: {} lists (all lists of length <= {} over {{0,1,2}}, all 0/1 lists up to length {}, lists of length {} with at most {} ones - beyond the call-depth limit of 32) x {} macro forms (all/exists/exists_one/filter x 11 bodies, map/2 x 4, map/3 x 20, reduce x 6; bodies read the loop variable, an outer variable, a stored program, inner macros re-using the name or reading the outer loop variable, a call-recording function, fail at the element 1, or read an unbound name) x literal/bound list x outer binding of the loop variable name absent/100 x the name read before/after the macro; the result and the exact log of recorded calls (visiting order and stopping point) must equal the defining fold, and the caller's binding of the name must be unchanged. map-key-order: every non-empty subset of 4 keys x 5 macro forms, the map built in every insertion order as literal, literal with variable values, bound HashMap and JSON, evaluated twice each: a permutation of the images and always the same permutation. typed-elements: all lists of length <= 3 over 10 elements of every type (strings, lists, maps, null, double, bool, bytes, uint) x 9 macro forms whose result is determined by identity and truthiness, literal and bound. Non-trivial = every case; distinct by (index, form)",
+        "list-macros: {} lists (all lists of length <= {} over {{0,1,2}}, all 0/1 lists up to length {}, lists of length {} with at most {} ones - beyond the call-depth limit of 32) x {} macro forms (all/exists/exists_one/filter x 11 bodies, map/2 x 4, map/3 x 20, reduce x 6; bodies read the loop variable, an outer variable, a stored program, inner macros re-using the name or reading the outer loop variable, a call-recording function, fail at the element 1, or read an unbound name) x literal/bound list x outer binding of the loop variable name absent/100 x the name read before/after the macro; the result and the exact log of recorded calls (visiting order and stopping point) must equal the defining fold, and the caller's binding of the name must be unchanged. map-key-order: every non-empty subset of 4 keys x 5 macro forms, the map built in every insertion order as literal, literal with variable values, bound HashMap and JSON, evaluated twice each: a permutation of the images and always the same permutation. typed-elements: all lists of length <= 3 over 10 elements of every type (strings, lists, maps, null, double, bool, bytes, uint) x 9 macro forms whose result is determined by identity and truthiness, literal and bound. shadowed-programs: all lists of length <= 3 over {{0,1,2}} x all macro forms with programs stored under the loop-variable names (x, acc). Non-trivial = every case; distinct by (index, form)",
         sp.lists.len(),
         t.pick(5, 6),
         t.pick(8, 10),
@@ -744,6 +813,7 @@ pub fn run(t: Tier) -> i32 {
     rep.run_family(Family::new("list-macros", sp.size(), |i, a| sp.run(i, a)));
     rep.run_family(Family::new("map-key-order", 15 * MAPMACROS.len() as u64, run_mapcase));
     rep.run_family(Family::new("typed-elements", typed_size(), run_typed));
+    rep.run_family(Family::new("shadowed-programs", shadow_size(), run_shadow));
     rep.assumptions = vec![
         "sortedness of the map key order is not demanded, only that it is the same for every map with that key set".into(),
         "when the loop-variable name is read outside the macro and is unbound the expression must fail; whether the macro body ran is not fixed".into(),
